@@ -188,8 +188,10 @@ type World struct {
 }
 
 type crashSnap struct {
-	step  int
-	store map[uint][]byte
+	step   int
+	gen    int
+	logIdx int
+	store  map[uint][]byte
 }
 
 func (w *World) ev(e Event) {
@@ -413,7 +415,7 @@ func (w *World) threadAlts(th *thread) (alts []alt, hasDefault bool) {
 			return alts, true
 		}
 		alts = append(alts, alt{label: th.name + " dial ok", do: func() {
-			c := &simConn{w: w, id: len(w.conns) + 1, bk: &brokerConn{}}
+			c := &simConn{w: w, id: len(w.conns) + 1, bk: &brokerConn{}, gen: w.gen}
 			w.conns = append(w.conns, c)
 			w.ev(Event{K: "dial", T: th.name, C: c.id})
 			r.out = c
@@ -722,6 +724,7 @@ func (w *World) newClient(adopt bool) error {
 func (w *World) crash() {
 	w.ev(Event{K: "crash"})
 	snap := w.store.copy(w)
+	w.crashSnaps = append(w.crashSnaps, crashSnap{step: w.step, gen: w.gen, logIdx: len(w.log), store: w.store.copy(w).m})
 	old := w.client
 	// drain the old generation: its goroutines run free against dead
 	// connections and a detached store
